@@ -2,6 +2,7 @@ package props
 
 import (
 	"fmt"
+	"math"
 	"testing"
 	"time"
 
@@ -29,8 +30,9 @@ func TestC06(t *testing.T) {
 		}
 		probe := val.Run(c, prep)
 		k := probe.Firings
-		choice := rapid.IntRange(0, 6).Draw(rt, "budget_choice")
+		choice := rapid.IntRange(0, 8).Draw(rt, "budget_choice")
 		var mc int
+		var huge uint64
 		switch choice {
 		case 0:
 			mc = 0
@@ -44,13 +46,24 @@ func TestC06(t *testing.T) {
 			mc = k
 		case 5:
 			mc = k + 1
-		default:
+		case 6:
 			mc = 2*k + 1
+		default:
+			// "no limit" settings: the largest values the field can hold
+			huge = rapid.SampledFrom([]uint64{math.MaxUint64, math.MaxUint64 - 1, 1 << 63, 1<<63 - 1, 1 << 32, math.MaxInt32, math.MaxUint32}).Draw(rt, "huge_budget")
 		}
 		if mc < 0 {
 			mc = 0
 		}
 		c.MaxCycle = uint64(mc)
+		if huge != 0 {
+			if probe.EndedBy != "quiescence" && probe.EndedBy != "complete" || !allDistinctSalience(c.Rules) || probe.Excluded != "" {
+				// a run that does not end by itself cannot be given an unlimited budget; with salience ties
+				// termination may depend on the engine's (random) tie-breaking
+				huge = uint64(2*k + 1)
+			}
+			c.MaxCycle = huge
+		}
 		c.Listeners = rapid.IntRange(1, 3).Draw(rt, "listeners")
 		start := time.Now()
 		rep, v := runValidated(rt, c, "C06")
